@@ -29,6 +29,7 @@ type mxDecl struct {
 	Type  string        `( ":" @( "int":Ident | "str":Ident | Ident ) )?`
 	Opt   bool          `@"?"?`
 	Size  uint8         `( "[" @Int "]" )?`
+	Dims  []int16       `( "(" @Int ( "," @Int )* ")" )?`
 	Val   int           `( "=" @( "-"? Int )`
 	Ratio float32       `      | "~" @( Float | Int ) )?`
 	Body  []lexer.Token `( "{" @( Ident | Int | "," )* "}" )?`
@@ -50,6 +51,8 @@ var worldMisc = &world{
 		flatDoc("flat-body", "var a { x", ", y", " } <t>;"),
 		flatDoc("flat-tags", "var a <t", " t", ">;"),
 		{name: "empty", valid: true, text: ""},
+		{name: "dims", valid: true, text: "var a (1, 2, 300) <t>;\nconst b [2] (7) = 1 <t>;"},
+		{name: "dims-overflow", valid: false, text: "var a (1, 2, 70000) <t>;"},
 		{name: "size-overflow", valid: false, text: "var a [300] <t>;"},
 		{name: "int-overflow", valid: false, text: "var a = 99999999999999999999 <t>;"},
 		{name: "empty-tags", valid: false, text: "var a <>;"},
